@@ -3991,6 +3991,9 @@ size_t ZSTDv07_decompressContinue(ZSTDv07_DCtx* dctx, void* dst, size_t dstCapac
                 }
                 dctx->expected = 0;
                 dctx->stage = ZSTDds_getFrameHeaderSize;
+            } else if (cBlockSize == 0) {   /* empty raw block : nothing to read nor to regenerate, next header (expected == 0 would mean end of frame) */
+                dctx->expected = ZSTDv07_blockHeaderSize;
+                dctx->stage = ZSTDds_decodeBlockHeader;
             } else {
                 dctx->expected = cBlockSize;
                 dctx->bType = bp.blockType;
